@@ -7,133 +7,129 @@ VERIF = Path(__file__).resolve().parent.parent
 PY = "/venv/bin/python"
 
 TRUST = (
-    "Trusted base: CPython's ast parser; jstat's interpreter semantics for the Python subset pyjelly uses; "
-    "the models of protobuf/rdflib/stdlib listed in jstat/models.py and jstat/models_rdflib.py; the Jelly facts in jstat/spec.py. "
+    "Trusted base: CPython's ast parser; jstat's interpreter semantics for the Python subset pyjelly uses (cross-checked against CPython by `jstat langtest`); "
+    "the models of protobuf/rdflib/stdlib in jstat/models.py, jstat/models_std.py and jstat/models_rdflib.py; the Jelly facts in jstat/spec.py. "
     "pyjelly is never imported or executed; an unsupported construct or vanished anchor gives ANALYSIS-ERROR (exit 2), not a verdict."
 )
 
 # id -> dict(technique, text, design_ref, note) for claimed checks
 CLAIMS: dict[str, dict] = {
     "C01": dict(
-        technique="symbolic writer∘reader pipeline: abstract interpretation of serializer and parser source on symbolic statements, composite must normalise to the identity",
-        text="Decides a necessary structural condition of the round trip: for every term kind x slot, repeat pattern, enabled/disabled/tight table sizing, framing, entry point and the three generic parsers, "
-        "the real serializer source followed by the real parser source maps a symbolic statement sequence to itself (order, length, duplicates, components; xsd:string == plain). "
-        "Covers quoted triples, generalized positions and paths the suite never executes. Not decided: equality for arbitrary concrete data, protobuf byte fidelity.",
-        design_ref="DESIGN.md §5 C01",
+        technique="symbolic writer∘reader pipeline: abstract interpretation of the serializer and parser source on symbolic statements; the composite must normalise to the identity and agree with an independent specification decoder",
+        text="Decides a necessary structural condition of the round trip: for every term kind x slot, repeat pattern, shared prefixes/names, duplicates, deep quoted triples, separator-less IRIs, literals differing only in case, enabled/disabled/tight table sizing, framing, entry point (sink, generator, grouped, flat) and the three generic parsers, "
+        "the real serializer source followed by the real parser source maps a symbolic statement sequence to itself (order, length, duplicates, components; xsd:string == plain). Not decided: equality for arbitrary concrete data, protobuf byte fidelity.",
+        design_ref="DESIGN.md §5 C01, §11.2",
     ),
     "C02": dict(
-        technique="symbolic writer∘reader pipeline over a model of rdflib terms/graphs; path rule for graph bracketing; table rule for plugin glue",
-        text="Same composite-is-identity rule for RDFLibTermEncoder/RDFLibAdapter over RDF 1.1 kinds, graph names incl. default graph, store and generator input, flat/grouped/non-delimited framings, three parsers; "
-        "GraphStream.graph brackets every graph; Graph.serialize/Graph.parse glue delivers into the caller's store. Not decided: rdflib's own store order and literal normalisation.",
-        design_ref="DESIGN.md §5 C02",
+        technique="symbolic writer∘reader pipeline over an executable model of rdflib terms/graphs (rdflib's own ==/hash, set-semantics stores); path rule for graph bracketing; table rule for plugin glue",
+        text="Same composite-is-identity rule for RDFLibTermEncoder/RDFLibAdapter over RDF 1.1 kinds, graph names incl. default graph, store/generator/bare-tuple/flat-entry input, flat/grouped/non-delimited framings, three parsers; GraphStream.graph brackets every graph; Graph.serialize/Graph.parse glue delivers into the caller's store. "
+        "One known finding (language-tag case, F13). Not decided: rdflib's own store order and literal normalisation.",
+        design_ref="DESIGN.md §5 C02, §11.2, §11.7",
     ),
     "C03": dict(
-        technique="abstract frames emitted by the analysed serializer source are checked by an independent specification state machine (jstat.refdec); typestate/validity rules",
-        text="For ~3000 writer configurations of both integrations (all physical types, presets incl. disabled and tight tables, framings, reused streams, namespaces) the abstract stream is valid Jelly for a decoder that shares "
-        "no code with pyjelly: options first and repeated unchanged, ids within declared sizes and defined earlier, zero forms, complete first statement/quoted triples, row kinds, bracketing, namespace rows only in v2, and it decodes to the input. "
-        "Not decided: byte-level protobuf encoding.",
-        design_ref="DESIGN.md §5 C03",
+        technique="abstract frames emitted by the analysed serializer source are judged by an independent specification state machine (jstat.refdec): typestate/validity rules + decoding",
+        text="For ~5000 writer configurations of both integrations (all physical types, presets incl. disabled and tight tables, framings, reused streams, namespaces) the abstract stream is valid Jelly for a decoder that shares no code with pyjelly: options first and repeated unchanged, ids within declared sizes and defined earlier, zero forms, complete first statement/quoted triples, row kinds, "
+        "bracketing, namespace rows only in v2 streams, and it decodes to the input. One known finding (F13). Not decided: byte-level protobuf encoding.",
+        design_ref="DESIGN.md §5 C03, §11.2",
     ),
     "C04": dict(
-        technique="foreign-producer streams from a descriptor-built reference encoder (validated by the reference decoder) pushed through the parser source; descriptor-driven exhaustiveness of dispatch tables",
-        text="A reference encoder enumerates legal producer choices (4 eviction policies, zero/explicit/alternating ids, 3 IRI split strategies, repeated terms on/off, lazy/early/redundant entries, 4 framings incl. empty frames with metadata and repeated options rows, "
-        "delimited or not, namespaces) over statement sequences that force hits, misses and evictions; every stream is proven valid by jstat.refdec and must decode through pyjelly's parser source to the statements it denotes. Row/term dispatch tables are exhaustive w.r.t. the descriptor. "
-        "Not decided: an actual third-party encoder end to end.",
-        design_ref="DESIGN.md §5 C04",
-    ),
-    "C07": dict(
-        technique="differential constant propagation over frame partitionings of one abstract row sequence; loop-shape / linear-use rules on grouped parser traces; frame-count rule on grouped writer traces",
-        text="The same row sequence cut six ways (single frame, per row, pairs, empty/metadata frames around halves, options alone, between every entry and its use) parses identically through the flat parsers of both integrations; grouped parsing yields one sink per frame in order "
-        "with that frame's metadata visible; grouped writing with grouped logical types emits one frame per non-empty sink/graph. Not decided: all re-partitionings of concrete streams.",
-        design_ref="DESIGN.md §5 C07",
-    ),
-    "C10": dict(
-        technique="laziness/order rule on parser traces with a frame source that ends or fails after j frames",
-        text="protobuf's rejection of a torn frame is trusted; decided is that the four streaming parsers hand the caller exactly the statements of the j completely delivered frames, in order, before ending or raising (no materialisation, no read-ahead), for j in {0,1,2,4} x EOF/torn x 3 physical types.",
-        design_ref="DESIGN.md §5 C10",
-    ),
-    "C11": dict(
-        technique="producer/consumer interleaving observed on abstract traces (instrumented input generator, frame-by-frame consumer); constant propagation of frame_size into the flow",
-        text="For flat delimited serialisation through 4 entry points x frame sizes {1,3,6,250} x explicit/inferred logical type: fewer than frame_size rows pending at every pull from the second statement on, each frame reaches the caller before more input is consumed, "
-        "no read-ahead, the flow's frame_size equals options.frame_size; parsers yield all statements of delivered frames before requesting the next frame. Not decided: real thread schedules and timing.",
-        design_ref="DESIGN.md §5 C11",
-    ),
-    "C12": dict(
-        technique="whole-package ownership and effect analysis: shared-heap tagging on traces, syntactic sweep of all functions, instance-state disjointness, default-value table, nondeterminism taint",
-        text="No import-time object is mutated on any serialise/parse trace (both integrations, all entry points) nor by any function syntactically; two instances of each of 32 stateful constructions share no mutable object; all 71 parameter/field defaults are immutable or factories; "
-        "no hash/id/random/time/set-iteration/non-deterministic SerializeToString on the paths; the metadata map is never written. Not decided: rdflib's iteration order, protobuf internals, C-level parallelism.",
-        design_ref="DESIGN.md §5 C12",
-    ),
-    "C15": dict(
-        technique="sibling cross-check of extracted semantics: six parsers on the same abstract frames; frames of the two serializers on corresponding symbolic data",
-        text="For RDF 1.1 corpora over all physical types: the flat, grouped(concatenated) and to-graph parsers of both integrations return corresponding statements for the same frames; generic and rdflib serializers emit structurally identical frames for corresponding data and equal options "
-        "(generator input for all types, containers for TRIPLES). One known finding (rdflib GRAPHS writer regroups a quad generator through a Dataset). Not decided: byte equality on concrete inputs.",
-        design_ref="DESIGN.md §5 C15",
-    ),
-    "C17": dict(
-        technique="taint + dominance of input-sized allocations on parser traces; recursion-shape rule via message parent pointers; syntactic loop-progress rule",
-        text="Wall time, RSS and interpreter crashes are runtime quantities and are not decided. Decided: no allocation sized by an options-row field or an entry id above 4096 happens before rejection; the only recursion on the parse path descends into strict sub-messages; every while loop on the parse path consumes input or has an exit, the frame iterator stops at EOF, and no lazy iterator is nested once per input frame.",
-        design_ref="DESIGN.md §5 C17",
-    ),
-    "C18": dict(
-        technique="undersized-table configurations pushed through the serializer source; abstract stream decoded by the reference decoder (refuse-or-correct rule)",
-        text="For enabled tables smaller than one statement needs (prefix 1..4, datatype 1..2, names 8..14 with nested quoted triples; both integrations) serialisation must raise or the stream must decode to the input; exact-size controls must succeed, including every 2-statement history over 5 keys on a 3-slot prefix/datatype table. "
-        "One known finding (LRU eviction cannot refuse). Not decided: which concrete statements overflow.",
-        design_ref="DESIGN.md §5 C18",
-    ),
-    "C19": dict(
-        technique="row-level audit of abstract emitted streams by the reference decoder: redundant-entry, missed-elision, missed-zero counters, graph-start count",
-        text="Over ~2100 writer configurations of both integrations: no entry row for a resident string, no term written that equals the previous statement's term in its slot, zero forms wherever the delta rule allows, one graph start per run of equal graph names. Not decided: sizes of concrete outputs.",
-        design_ref="DESIGN.md §5 C19",
-    ),
-    "C20": dict(
-        technique="exception-safety (effect) analysis on abstract traces: catch-and-continue driver, fault at every slot x cause, result judged by the reference decoder",
-        text="For 3 stream methods x both encoders x causes {unsupported term, typed literal with disabled table, short tuple} x slots {s,p,o,g,nested} x frame sizes: after the rejected statement the frames written are valid and decode to exactly the accepted statements, or the stream refuses further use. "
-        "Not decided: every position in arbitrary concrete sequences.",
-        design_ref="DESIGN.md §5 C20",
+        technique="foreign-producer streams from a descriptor-built reference encoder (each validated by the reference decoder) pushed through the parser source; descriptor-driven exhaustiveness of dispatch tables",
+        text="A reference encoder enumerates legal producer choices (4 eviction policies, zero/explicit/alternating ids, 3 IRI split strategies, repeated terms on/off, lazy/early/redundant entries, 4 framings incl. empty frames with metadata and repeated options rows, delimited or not, namespaces, many datatypes, falsy literal graph names) over statement sequences that force hits, misses and evictions; "
+        "every stream is proven valid by jstat.refdec and must decode through pyjelly's parser source to the statements it denotes. Row/term dispatch tables are exhaustive w.r.t. the descriptor. Not decided: an actual third-party encoder end to end.",
+        design_ref="DESIGN.md §5 C04, §11.2",
     ),
     "C05": dict(
         technique="least fixpoint of reachable joint writer/reader lookup states (finite abstract domain up to key renaming) computed through the source of the index rules; ordering enumeration",
-        text="For table sizes 1..5 (quick) / 1..6 (thorough) and each of the three index rules the closed set of reachable (LookupEncoder, LookupDecoder) states is enumerated through the real source; at every transition the emitted entry id + reference "
-        "resolves on the reader to the writer's key, ids lie in [0,size], the writer holds <= size entries. The same closure is computed one level up (TermEncoder.encode_iri/encode_literal rows fed to Decoder, prefix/datatype tables of size 1..3, key alphabet size+2). Closure of a finite state space covers histories of any length. Not decided: sizes above the bound (argued by the comparison-only fragment).",
-        design_ref="DESIGN.md §5 C05",
+        text="For table sizes 1..5 (quick) / 1..6 (thorough) and each of the three index rules the closed set of reachable (LookupEncoder, LookupDecoder) states is enumerated through the real source; at every transition the emitted entry id + reference resolves on the reader to the writer's key, ids lie in [0,size], the writer holds <= size entries. "
+        "The same closure is computed one level up (TermEncoder.encode_iri/encode_literal rows fed to Decoder, tables of size 1..3, key alphabet size+2). Closure of a finite state space covers histories of any length. Not decided: sizes above the bound (argued by the comparison-only fragment).",
+        design_ref="DESIGN.md §5 C05, §11.2",
     ),
     "C06": dict(
-        technique="conditional constant propagation over the complete configuration lattice (abstract interpretation of Stream/FrameFlow/entry-point source), final-state rule",
-        text="Decides completely, for every point of the finite lattice {3 stream classes x 8 logical types x delimited x frame sizes x inferred/6 explicit flows x 15 entry points} "
-        "with symbolic statements, whether construction raises, or every row that entered the flow reached the caller, the flow is empty when the entry point returns and an independent specification decoder reads exactly the submitted statements from the abstract frames. "
-        "Exhaustive over configurations (the suite samples a handful); not decided: protobuf byte fidelity.",
-        design_ref="DESIGN.md §5 C06",
+        technique="conditional constant propagation over the complete configuration lattice (abstract interpretation of Stream/FrameFlow/entry-point source), final-state rule, independent decoding of the abstract output",
+        text="Decides completely, for every point of the finite lattice {3 stream classes x 8 logical types x delimited x frame sizes x inferred/6 explicit flows x namespace declarations x 15 entry points} with symbolic statements, whether construction raises, or every row that entered the flow reached the caller, the flow is empty when the entry point returns and "
+        "an independent specification decoder reads exactly the submitted statements; the rdflib plugin writes length-prefixed frames iff delimited for every logical type; a 3-term statement among quads is refused, never silently truncating the output. Not decided: protobuf byte fidelity.",
+        design_ref="DESIGN.md §5 C06, §11.2",
+    ),
+    "C07": dict(
+        technique="differential constant propagation over frame partitionings of one abstract row sequence; loop-shape / linear-use rules on grouped parser traces; frame-count rule on grouped writer traces",
+        text="The same row sequence cut six ways (quick) or at every single cut, every single cut with an empty frame and every nearby pair of cuts (thorough) parses identically through the flat parsers of both integrations; grouped parsing yields one sink per frame in order with that frame's metadata visible, read by a streaming consumer; "
+        "grouped writing with grouped logical types emits one frame per non-empty sink/graph (sink-size patterns incl. empty sinks, explicit flow objects). One known finding (F12: leading empty sink). Not decided: all re-partitionings of concrete streams.",
+        design_ref="DESIGN.md §5 C07, §11.2, §11.7",
     ),
     "C08": dict(
-        technique="constant propagation of the detector over a finite header domain; ground truth derived from the protobuf descriptor; position-tracking I/O rule",
-        text="Finite and decided completely: delimited_jelly_hint agrees with the descriptor-derived ground truth on every 3-byte header a valid stream can start with (frame lengths and options-row lengths incl. all 0x0A coincidences, multi-byte varints); "
-        "get_options_and_frames leaves the read position unchanged and routes to length-prefixed vs whole-input parsing.",
-        design_ref="DESIGN.md §5 C08",
+        technique="constant propagation of the detector over a finite header domain; ground truth derived from the protobuf descriptor; position-tracking I/O rule; varint table for hand-made prefixes",
+        text="Finite and decided completely: delimited_jelly_hint agrees with the descriptor-derived ground truth on every 3-byte header a valid stream can start with (frame and options-row lengths incl. all 0x0A coincidences, multi-byte varints); get_options_and_frames leaves the read position unchanged and routes to length-prefixed vs whole-input parsing, incl. empty frames; "
+        "write_delimited writes varint(len)+frame at every varint boundary; the rdflib plugin's write mode follows params.delimited; the mode reported for a stream never depends on streams parsed before.",
+        design_ref="DESIGN.md §5 C08, §11.2",
     ),
     "C09": dict(
-        technique="I/O-contract taint rule on the resolved receiver class of every read-like call on the parser input (abstract interpretation with an io model)",
-        text="The read schedule is the environment's; decided is pyjelly's use of the I/O API for four source classes (BytesIO, seekable/non-seekable caller-supplied BufferedReader over a short-read raw source, raw non-seekable) x framings x six public parsers: header bytes for the detector must come from an exact-or-EOF read, "
-        "no raw read after wrapping, frames (also when read by pyjelly's own code) come from exact reads on a buffered object. One known finding (peek(3) on a wrapped raw source). Not decided: third-party file objects, gzip internals.",
-        design_ref="DESIGN.md §5 C09",
+        technique="I/O-contract taint rule on the resolved receiver class of every read-like call on the parser input (abstract interpretation with an io model); short-read differential",
+        text="The read schedule is the environment's; decided is pyjelly's use of the I/O API for four source classes (BytesIO, seekable/non-seekable caller-supplied BufferedReader over a short-read raw source, raw non-seekable) x framings x six public parsers: header bytes for the detector come from an exact-or-EOF read, no raw read after wrapping, frames come from exact reads on a buffered object; "
+        "with 1-2 bytes delivered to the first short-able read, or a source handed over at a non-zero position, the same frames are parsed. One known finding (peek(3) on a wrapped raw source). Not decided: third-party file objects, gzip internals.",
+        design_ref="DESIGN.md §5 C09, §11.2",
+    ),
+    "C10": dict(
+        technique="laziness/order rule on parser traces with a frame source that ends or fails after j frames",
+        text="protobuf's rejection of a torn frame is trusted; decided is that the four streaming parsers hand the caller exactly the statements of the j completely delivered frames, in order, before ending or raising (no materialisation, no read-ahead), for j in {0,1,2,4} (quick) / 0..7 (thorough) x EOF/torn x 3 physical types x seekable/raw/buffered non-seekable sources.",
+        design_ref="DESIGN.md §5 C10, §11.2",
+    ),
+    "C11": dict(
+        technique="producer/consumer interleaving observed on abstract traces (instrumented input generator, frame-by-frame consumer, abstract sinks); constant propagation of frame_size into the flow",
+        text="For flat delimited serialisation through 4 frame-generator entry points and flat_stream_to_file with raw/buffered/in-memory/duck-typed sinks x frame sizes x explicit/inferred logical type and caller-supplied flows: fewer than frame_size rows pending at every pull from the second statement on, each frame reaches the caller (or the caller's sink) before more input is consumed, "
+        "no read-ahead, the flow's frame_size equals options.frame_size; parsers yield all statements of delivered frames before requesting the next frame. Not decided: real thread schedules and timing.",
+        design_ref="DESIGN.md §5 C11, §11.2",
+    ),
+    "C12": dict(
+        technique="whole-package ownership and effect analysis: shared-heap tagging on traces, syntactic sweep of all functions, instance-state disjointness, default-value table, nondeterminism taint, interleaving differential with an independent content oracle, class-definition hooks",
+        text="No import-time object is mutated on any serialise/parse trace nor by any function syntactically; two instances of each stateful construction share no mutable object; all parameter/field defaults are immutable or factories; no hash/id/random/time/set-iteration/non-deterministic SerializeToString on the paths; the metadata map is never written; "
+        "two parsers stepped alternately and two serializers driven under every interleaving of their statements (thorough: all 20 schedules; also one statement encoded in the middle of another) produce what each produces alone and decode to their own inputs (memoisation modelled with the program's own ==); a user subclass never rewires import-time tables. Not decided: rdflib's iteration order, protobuf internals, C-level parallelism.",
+        design_ref="DESIGN.md §5 C12, §11.2",
     ),
     "C13": dict(
         technique="constant propagation over finite enums: decision tables extracted from source vs specification tables",
-        text="Finite and decided completely: header field bijection writer->row->reader for all 9 descriptor fields, version rule, all 4x8 physical/logical pairs on construction and parse, size limits on both sides, "
-        "strict-gate tables for both integrations x flat/grouped x 8 logical types, and non-interference of the logical type when strict is off.",
-        design_ref="DESIGN.md §5 C13",
+        text="Finite and decided completely: header field bijection writer->row->reader for all 9 descriptor fields (explicit and inferred flows), version rule, all 4x8 physical/logical pairs on construction and parse, size limits on both sides, strict-gate tables for both integrations x flat/grouped x 8 logical types, and non-interference of the logical type when strict is off.",
+        design_ref="DESIGN.md §5 C13, §11.2",
     ),
     "C14": dict(
         technique="symbolic pipeline for namespace bindings (source -> rows -> reference decoder / real reader -> sink -> re-serialise), guard and order rules",
-        text="For both integrations x physical types x sink/grouped/generator input: bound (prefix, IRI) pairs reach the wire, the reader's Prefix events and the sink unchanged and in order, the adapter constructor is applied once, "
-        "re-serialisation is a fixpoint, no rows when the option is off, statements unaffected. Not decided: rdflib's default bindings, eviction interplay on concrete data.",
-        design_ref="DESIGN.md §5 C14",
+        text="For both integrations x physical types x sink/grouped/generator input x frame sizes x presets incl. no prefix table: bound (prefix, IRI) pairs reach the wire, the reader's Prefix events and the sink unchanged and in order (no reordering construct on the path), the adapter constructor is applied once, re-serialisation is a fixpoint, no rows when the option is off, statements unaffected; "
+        "a target that already binds the namespace ends up with the declared prefix; a reused reader sink reports the file's bindings. Not decided: rdflib's default bindings, eviction interplay on concrete data.",
+        design_ref="DESIGN.md §5 C14, §11.2",
+    ),
+    "C15": dict(
+        technique="sibling cross-check of extracted semantics: six parsers on the same abstract frames (pyjelly's and a foreign producer's); frames of the two serializers on corresponding symbolic data",
+        text="For RDF 1.1 corpora over all physical types: the flat, grouped (streaming consumer, concatenated) and to-graph parsers of both integrations return corresponding statements for the same frames; generic and rdflib serializers emit structurally identical frames for corresponding data and equal options (generator input for all types, containers for TRIPLES, flat entry points, logical subtypes). "
+        "Two known findings (rdflib GRAPHS writer regroups a quad generator through a Dataset; F13). Not decided: byte equality on concrete inputs.",
+        design_ref="DESIGN.md §5 C15, §11.2",
     ),
     "C16": dict(
         technique="rejection table: one hand-built abstract violating stream per catalogued class pushed through the parser source; every path must raise before delivering anything for the offending row",
-        text="24 violation instances (entry/reference beyond size, never-filled slot, datatype 0 / while disabled, repeated term without previous / in quoted triple, missing options, forbidden row kinds, triple outside graph, unsupported type) "
-        "x both integrations x flat/grouped x single/split frames: must raise, must not deliver fabricated items. Not decided: every position x table state of concrete streams.",
-        design_ref="DESIGN.md §5 C16",
+        text="30 violation instances (entry/reference beyond size, never-filled slot, datatype 0 / while disabled, prefix id or prefix entry while disabled, repeated term without previous / in quoted triple, missing options, forbidden row kinds, triple outside graph, unsupported type/version, empty row) x both integrations x flat/grouped x single/split/per-row frames x with/without a stream parsed earlier in the process: "
+        "must raise, must not deliver fabricated items. Not decided: every position x table state of concrete streams.",
+        design_ref="DESIGN.md §5 C16, §11.2",
+    ),
+    "C17": dict(
+        technique="taint + dominance of input-sized allocations on parser traces; recursion-shape rule via message parent pointers; must-progress analysis of while loops; regular-expression blow-up detection over re._parser trees",
+        text="Wall time, RSS and interpreter crashes are runtime quantities and are not decided. Decided: no allocation sized by an options-row field or an entry id above 4096 happens before rejection; the only recursion on the parse path descends into strict sub-messages; every while loop on the parse path steps a counter of its condition or consumes input on every path back, the frame iterator stops at EOF, "
+        "no lazy iterator is nested once per input frame, and no regular expression with nested/overlapping quantifiers is applied to input text.",
+        design_ref="DESIGN.md §5 C17, §11.2",
+    ),
+    "C18": dict(
+        technique="undersized-table configurations pushed through the serializer source; abstract stream decoded by the reference decoder (refuse-or-correct rule)",
+        text="For enabled tables smaller than one statement needs (prefix 1..4, datatype 1..2, names 8..14 with nested quoted triples; both integrations) serialisation must raise or the stream must decode to the input; exact-size controls must succeed, including every 2-statement history over 5 keys on a 3-slot prefix/datatype table and single-namespace data with '/' inside fragments on a 1-slot prefix table. "
+        "One known finding (LRU eviction cannot refuse). Not decided: which concrete statements overflow.",
+        design_ref="DESIGN.md §5 C18, §11.2",
+    ),
+    "C19": dict(
+        technique="row-level audit of abstract emitted streams by the reference decoder: redundant-entry, missed-elision, missed-zero counters, graph-start count",
+        text="Over ~2900 writer configurations of both integrations (incl. namespace declarations and graph names reused as terms with and without a prefix table): no entry row for a resident string, no term written that equals the previous statement's term in its slot, zero forms wherever the delta rule allows, one graph start per run of equal graph names. Not decided: sizes of concrete outputs; batch sizes above the analysed sequences.",
+        design_ref="DESIGN.md §5 C19, §11.2",
+    ),
+    "C20": dict(
+        technique="exception-safety (effect) analysis on abstract traces: catch-and-continue driver, fault at every slot x cause, result judged by the reference decoder",
+        text="For 3 stream methods x both encoders x causes {unsupported term, typed literal with disabled table, short tuple, interrupted term iterator, failure after already-known terms} x slots {s,p,o,g,nested} x frame sizes: after the rejected statement the frames written are valid and decode to exactly the accepted statements, or the stream refuses further use; "
+        "the same through the integrations' stream_frames driver used again on the stream. Not decided: every position in arbitrary concrete sequences.",
+        design_ref="DESIGN.md §5 C20, §11.2",
     ),
 }
 
@@ -183,7 +179,7 @@ def main() -> None:
             }
         ],
         "checks": checks,
-        "notes": "All checks are static: they read /repo/pyjelly/**/*.py on every run. Known findings: /verif/known_findings.txt. Design: /verif/DESIGN.md.",
+        "notes": "All checks are static: they read /repo/pyjelly/**/*.py on every run. Known findings: /verif/known_findings.txt. Design: /verif/DESIGN.md (as built: §11). Seeded changes: /verif/seeded, behaviour-preserving corpus: /verif/benign.",
         "not_applicable": na,
     }
     (VERIF / "MANIFEST.json").write_text(json.dumps(man, indent=1))
